@@ -97,7 +97,8 @@ def check(ctx):
     r2(ctx, p)
     eg = r3(ctx, p)
     r4(ctx, p, eg)
-    r5(ctx, p)
+    # (the former R5 — idiom rules about setup<side> writing each scratch member before its readers — is subsumed by R6, which
+    #  walks the evaluation in execution order and does not depend on how the filling is spelled)
     r6(ctx, p)
     ctx.note('not decided: collisions of the 64-bit pawn key between different pawn structures (probabilistic)')
 
